@@ -13,7 +13,7 @@ import (
 )
 
 type c10Case struct {
-	Phase   string   `json:"phase"` // init | working | extfin | reset | resetgap | failreset
+	Phase   string   `json:"phase"` // init | working | stalled | extfin | reset | resetgap | failreset
 	D       int      `json:"d"`     // how long the first invocation stays in the phase (ms)
 	Offsets []int    `json:"offsets"`
 	Payload kit.Blob `json:"payload"`
@@ -38,6 +38,11 @@ func (c *c10Case) scenario() *Scenario {
 	case "working":
 		sc.Actors["runtime"] = []Script{{Steps: []Step{{Op: "rt.next", Signal: []string{"phase"}}, {Op: "sleep", Ms: c.D},
 			{Op: "rt.response", ID: "cur", BodyMode: "transform"}, loop}}}
+	case "stalled":
+		// the extra callers arrive while the runtime works; it then never answers: the first invocation must still run
+		// into its function timeout (700 ms) and be answered
+		sc.Config.TimeoutMs = 700
+		sc.Actors["runtime"] = []Script{{Steps: []Step{{Op: "rt.next", Signal: []string{"phase"}}, {Op: "stall"}}}, {Steps: []Step{loop}}}
 	case "extfin":
 		if c.InternalExt {
 			// the runtime registers an internal extension, polls for it once and then serves invocations promptly; the
@@ -309,6 +314,10 @@ func c10Check(c c10Case) kit.Outcome {
 			if e.Kind == "sup.kill" && e.Proc == "runtime-1" && cause == 0 {
 				cause = e.Seq
 			}
+		case "stalled":
+			if e.Kind == "hook.hit" && e.Call == "invoke.timeoutFired" && cause == 0 {
+				cause = e.Seq
+			}
 		case "failreset":
 			if e.Kind == "sup.kill" && e.Proc == "extension-e1-1" && cause == 0 {
 				cause = e.Seq
@@ -375,9 +384,13 @@ func c10Check(c c10Case) kit.Outcome {
 			out.Violate("C10/first-affected", "first invocation (Runtime.ExitError expected) got %d %q", first.Status, clip(first.Text, 200))
 			return out
 		}
-	} else if c.Phase == "reset" || c.Phase == "resetgap" {
+	} else if c.Phase == "reset" || c.Phase == "resetgap" || c.Phase == "stalled" {
 		if first.Status != 200 || first.Text != "Task timed out after 4.00 seconds" {
 			out.Violate("C10/first-affected", "first invocation (timeout expected) got %d %q", first.Status, clip(first.Text, 200))
+			return out
+		}
+		if c.Phase == "stalled" && first.DurMs > 700+2000+1500 && !run.starved(700) {
+			out.Violate("C10/first-affected", "first invocation (function timeout 700 ms) was answered after %.0f ms", first.DurMs)
 			return out
 		}
 	} else if !expectOK(&out, "C10", tr, "i0", c.Payload) {
@@ -391,7 +404,7 @@ func c10Check(c c10Case) kit.Outcome {
 }
 
 func c10Gen(t *rapid.T) c10Case {
-	c := c10Case{Phase: rapid.SampledFrom([]string{"init", "working", "extfin", "reset", "resetgap", "failreset"}).Draw(t, "phase"),
+	c := c10Case{Phase: rapid.SampledFrom([]string{"init", "working", "stalled", "extfin", "reset", "resetgap", "failreset"}).Draw(t, "phase"),
 		D: rapid.IntRange(50, 400).Draw(t, "d"), Payload: genBlob(t, "p", false)}
 	if c.Phase == "extfin" {
 		c.InternalExt = rapid.Bool().Draw(t, "internalExt")
@@ -407,6 +420,9 @@ func c10Gen(t *rapid.T) c10Case {
 	}
 	if c.Phase == "resetgap" {
 		budget = 40
+	}
+	if c.Phase == "stalled" {
+		budget = 350
 	}
 	for i := 0; i < n; i++ {
 		off := rapid.IntRange(0, budget/n).Draw(t, fmt.Sprintf("off%d", i))
@@ -424,6 +440,7 @@ func c10Fixed() []c10Case {
 		{Phase: "init", D: 60, Offsets: []int{0}, Payload: p, Frontend: true},
 		{Phase: "init", D: 60, Offsets: []int{0}, Payload: p, Frontend: true, Ordered: true},
 		{Phase: "init", D: 90, Offsets: []int{0, 0}, Payload: p, Frontend: true, Ordered: true},
+		{Phase: "stalled", D: 100, Offsets: []int{30, 120}, Payload: p},
 		{Phase: "extfin", D: 150, Offsets: []int{10}, Payload: p},
 		{Phase: "extfin", D: 150, Offsets: []int{10, 40}, Payload: p, InternalExt: true},
 		{Phase: "reset", D: 100, Offsets: []int{50, 100}, Payload: p},
